@@ -149,16 +149,31 @@ func (w *world) park(id int64) string {
 	close(r.gate)
 	if r.ttl == 0 {
 		// clock.After(0) is ready at once: the select takes the TTL case (doneCh cannot be ready)
-		if w.awaitRes(r) {
+		ok := w.awaitRes(r)
+		r.phase = "done"
+		if ok {
 			return "ttl0-returned-true"
 		}
-		r.phase = "done"
 		return "ttl0"
 	}
 	rg := w.c.awaitReg(r.id)
+	want := w.inSel + 1
+	returned, retOK := false, false
+	waitUntil("enqueuer to block in select", func() bool {
+		select {
+		case ok := <-r.res: // did not block at all (never happens with the unchanged code)
+			returned, retOK = true, ok
+			return true
+		default:
+		}
+		return enqueuersInSelect() == want
+	})
+	if returned {
+		w.awaitFin(1)
+		r.phase = "done"
+		return fmt.Sprintf("returned-without-parking ok=%v", retOK)
+	}
 	w.inSel++
-	want := w.inSel
-	waitUntil("enqueuer to block in select", func() bool { return enqueuersInSelect() == want })
 	r.phase = "parked"
 	return fmt.Sprintf("parked dl=%d", rg.due)
 }
@@ -212,11 +227,12 @@ func (w *world) expire(id int64) string {
 		return "not-enabled"
 	}
 	w.c.fire(r.id)
-	if w.awaitRes(r) {
-		return "expired-returned-true"
-	}
+	ok = w.awaitRes(r)
 	r.phase = "done"
 	w.inSel--
+	if ok {
+		return "expired-returned-true"
+	}
 	return "expired"
 }
 
@@ -229,19 +245,11 @@ func (w *world) shutdown() {
 	w.g.openAll(w.relGate)
 	w.c.fireAll()
 	// the roll-over goroutine ends at its next After(); gap enqueuers end at their After(ttl)
-	expect := 1
-	for _, r := range w.reqs {
-		if r.phase == "gap" {
-			expect++
-		}
-	}
 	deadline := time.After(settleTimeout)
-	for ; expect > 0; expect-- {
-		select {
-		case <-w.c.exits:
-		case <-deadline:
-			panic("harness: roll-over goroutine / gated enqueuers did not stop")
-		}
+	select {
+	case <-w.c.exits:
+	case <-deadline:
+		panic("harness: roll-over goroutine did not stop")
 	}
 	for w.started > 0 {
 		select {
